@@ -61,7 +61,7 @@ theorem resolveAll_replicate {t : SymTab} {a : Stmt} (ha : resolveOperand a.oper
     rfl
 
 /-- the statement `translateAll` makes of `a` when its operand translates to `p` -/
-def withPkg (a : Stmt) (p : Pkg) : Stmt := { a with pkg := p, fixedSize := !(p.needsRes || !p.choices.isEmpty) }
+def withPkg (a : Stmt) (p : Pkg) : Stmt := { a with pkg := p, fixedSize := p.choices.isEmpty }
 
 theorem translateAll_replicate {a : Stmt} {p : Pkg} (ha : translateOperand a.operand a.row = .ok p)
     (rest : List Stmt) :
@@ -164,9 +164,7 @@ theorem addrOffset_selfMinus {ss : List Stmt} {k : Nat} {v : Value} (hv : selfMi
   · rename_i l i m md
     simp only [Bool.and_eq_true, beq_iff_eq, Bool.not_eq_true'] at hv
     obtain ⟨⟨rfl, h1⟩, h2⟩ := hv
-    rw [addrOffset_expr]
-    simp only [h1, Bool.false_eq_true, if_false]
-    rw [addrOther_other ss l h1 h2]
+    rw [addrOffset_expr, addrOperand_other ss l h1 h2]
   · cases hv
 
 /-- **the former internal error, now a diagnostic**: a PCR statement of index `k` whose offset expression is
@@ -201,7 +199,10 @@ theorem fixOne_selfMinus_diag {ss : List Stmt} {k : Nat} {s : Stmt}
       rw [← heq, addrOffset_selfMinus hadd]
     · cases hshape
   unfold fixStep3
-  rw [if_pos hn, hrel]
+  rw [if_pos hn]
+  split
+  · unfold fixAbs; rw [hrel]
+  · rw [hrel]
 
 /-! ### the three kinds of line of the witness, stage by stage (closed computations, checked by the kernel) -/
 
